@@ -74,18 +74,71 @@ func (o *Once) doSlow(f func()) {
 	}
 }
 
+// Once objects hidden inside OnceFunc / OnceValue closures cannot be reached
+// by the generated snapshot of package-level variables; they are registered
+// here so that the explorer can put them back into the cold state.
+var registered []*Once
+
+// ResetRegistered returns every closure-held Once to "not yet run".
+func ResetRegistered() {
+	for _, o := range registered {
+		*o = Once{}
+	}
+}
+
 func OnceFunc(f func()) func() {
-	var once Once
+	once := new(Once)
+	registered = append(registered, once)
 	return func() { once.Do(f) }
 }
 
 func OnceValue[T any](f func() T) func() T {
-	var once Once
+	once := new(Once)
+	registered = append(registered, once)
 	var v T
 	return func() T {
 		once.Do(func() { v = f() })
 		return v
 	}
+}
+
+func OnceValues[T1, T2 any](f func() (T1, T2)) func() (T1, T2) {
+	once := new(Once)
+	registered = append(registered, once)
+	var v1 T1
+	var v2 T2
+	return func() (T1, T2) {
+		once.Do(func() { v1, v2 = f() })
+		return v1, v2
+	}
+}
+
+// Pool: a mutex-protected free list (every Get/Put is a scheduling point and
+// a happens-before edge, as for the real sync.Pool).
+type Pool struct {
+	New   func() any
+	m     Mutex
+	items []any
+}
+
+func (p *Pool) Get() any {
+	p.m.Lock()
+	defer p.m.Unlock()
+	if n := len(p.items); n > 0 {
+		x := p.items[n-1]
+		p.items = p.items[:n-1]
+		return x
+	}
+	if p.New != nil {
+		return p.New()
+	}
+	return nil
+}
+
+func (p *Pool) Put(x any) {
+	p.m.Lock()
+	defer p.m.Unlock()
+	p.items = append(p.items, x)
 }
 
 type WaitGroup struct {
